@@ -83,6 +83,9 @@ ASSUMPTIONS = [
     '(the statement does not say), stale/bogus contexts may also answer CIM_ERR_INVALID_NAMESPACE',
     'Open with MaxObjectCount=None: no limit is demanded (server default); Open need not make '
     'progress (only Pull with MaxObjectCount > 0 must)',
+    'the server default for MaxObjectCount=None is the module attribute '
+    'pywbem_mock._mainprovider.DEFAULT_MAX_OBJECT_COUNT (imported from pywbem_mock.config, 100); extra '
+    'runs set it to a value below the result size (an environment parameter, not a source change)',
     'a "foreign" context is the other interleaved session\'s context (used with every pull kind) '
     '- with one server there is no other meaning; made-up contexts are separate events',
 ]
@@ -97,9 +100,9 @@ BOUNDS = {
     # sessions=2: every ordered pair of Open operations (and single sessions) for every N;
     # three_sessions: all 343 triples for all_ops_N, the 27 triples over one Open operation per
     # pull kind for representative_ops_N; small_N only groups cheap runs into one shard
-    'quick': dict(_COMMON, N=[0, 1, 2, 3, 4], small_N=2, sessions=2,
+    'quick': dict(_COMMON, N=[0, 1, 2, 3, 4], small_N=2, sessions=2, small_server_defaults=[2],
                   three_sessions={'all_ops_N': [], 'representative_ops_N': [[0, 1, 2]]}),
-    'thorough': dict(_COMMON, N=[0, 1, 2, 3, 4, 5, 6], small_N=3, sessions=2,
+    'thorough': dict(_COMMON, N=[0, 1, 2, 3, 4, 5, 6], small_N=3, sessions=2, small_server_defaults=[1, 2, 3],
                      three_sessions={'all_ops_N': [0, 1, 2], 'representative_ops_N': [[3], [4]]}),
 }
 
@@ -660,8 +663,15 @@ def _shards(tier):
                     out.append(dict(check='session',
                                     runs=[[n, [op1, op2, op3], 3 * b['events_per_session']]
                                           for n in ns]))
+    # the server default for MaxObjectCount=None (pywbem_mock.config.DEFAULT_MAX_OBJECT_COUNT, 100)
+    # set below the result size, so that "None" on the Open really leaves objects for the pulls
+    for op1 in OPNAMES:
+        for op2 in (OPNAMES + [None] if tier == 'thorough' else [None, op1]):
+            out.append(dict(check='session',
+                            runs=[[n, [op1, op2], 2 * b['events_per_session'], d]
+                                  for d in b['small_server_defaults'] for n in b['N'] if n > d]))
     # biggest first (load balance only; the runner's seed permutes the order anyway)
-    out.sort(key=lambda sh: -sum((n + 2) ** len([o for o in pl if o]) for n, pl, _ in sh['runs']))
+    out.sort(key=lambda sh: -sum((r[0] + 2) ** len([o for o in r[1] if o]) for r in sh['runs']))
     return out
 
 
@@ -672,14 +682,17 @@ def plan(tier, seed):
 def run_shard(shard, tier):
     acc = Acc()
     acc.state_hashes = set()
-    for n, plan_, depth in shard['runs']:
+    for run in shard['runs']:
+        n, plan_, depth = run[:3]
+        sdef = run[3] if len(run) > 3 else 100
+        _mp.DEFAULT_MAX_OBJECT_COUNT = sdef
         w = fresh(n, plan_)
 
         sampled = (n == 2 and plan_ == SAMPLE_PLAN)   # exactly one BFS run: samples do not depend
                                                       # on shard order
 
-        def on_transition(parent_key, depth, ev, r, child_key, n=n, sampled=sampled):
-            acc.case((n, parent_key, json.dumps(ev)), nontrivial=r.nontrivial, outcome=r.outcome,
+        def on_transition(parent_key, depth, ev, r, child_key, n=n, sampled=sampled, sdef=sdef):
+            acc.case((n, sdef, parent_key, json.dumps(ev)), nontrivial=r.nontrivial, outcome=r.outcome,
                      sample=dict(n=n, sessions=[list(x[:3]) for x in parent_key[3]], event=ev,
                                  outcome=r.outcome, after_events=depth)
                      if sampled and depth == 4 and r.outcome in ('pull:eos', 'wrong-kind:refused',
@@ -689,11 +702,12 @@ def run_shard(shard, tier):
                           snap=explore.PickleSnap(), on_transition=on_transition,
                           max_states=MAX_STATES_PER_BFS)
         for v in res.violations.values():
-            acc.violation(v['sig'], dict(check=v['sig']['check'], n=n, history=v['history']),
+            acc.violation(v['sig'], dict(check=v['sig']['check'], n=n, history=v['history'],
+                                         server_default=sdef),
                           v['expected'], v['observed'])
             cur = acc.violations[json.dumps(v['sig'], sort_keys=True, ensure_ascii=True)]
             cur['count'] += v['count'] - 1
-        acc.state_hashes |= {hash((n, k)) for k in res.state_keys}
+        acc.state_hashes |= {hash((n, sdef, k)) for k in res.state_keys}
         acc.count('bfs_runs')
         acc.count('bfs_complete_state_graph' if res.fixpoint else 'bfs_stopped_by_depth_bound')
         acc.count('bfs_levels_total', res.depth)
@@ -704,12 +718,14 @@ def run_shard(shard, tier):
 
 def replay(case, tier):
     acc = Acc()
+    _mp.DEFAULT_MAX_OBJECT_COUNT = case.get('server_default', 100)
     w = fresh(case['n'], None)
     trace, problems = explore.run_history(w, step, case['history'])
     for ev, r in trace:
         acc.case((case['n'], json.dumps(ev)), nontrivial=r.nontrivial, outcome=r.outcome)
     for p in problems:
-        acc.violation(p.sig, dict(check=p.sig['check'], n=case['n'], history=case['history']),
+        acc.violation(p.sig, dict(check=p.sig['check'], n=case['n'], history=case['history'],
+                                  server_default=case.get('server_default', 100)),
                       p.expected, p.observed)
     return acc
 
